@@ -72,7 +72,7 @@ def gen_op(rng, state):
     if op == "sub":
         return {"op": "subtract", "slot": k, "mode": rng.choice(["scalar", "array"]), "z": [round(rng.uniform(0, 5), 3), round(rng.uniform(-5, 5), 3)]}
     if op == "json":
-        return {"op": "json_restart", "slot": k}
+        return {"op": "json_restart", "slot": k, "sort_keys": rng.random() < 0.4}
     if op == "reimport":
         return {"op": "reimport", "slot": k, "times": rng.randint(2, 3)}
     if op == "strip":
@@ -93,11 +93,11 @@ def gen_op(rng, state):
         return {"op": "read_views", "slot": k}
     if op == "refused_ctor":
         return {"op": "refused_construct", "kind": rng.choice(["dup_freq", "unequal", "empty", "mask_key_str", "mask_val_int", "mask_not_dict"])}
-    return {"op": "refused_set_mask", "slot": k, "kind": rng.choice(["key_str", "val_int", "not_dict"])}
+    return {"op": "refused_set_mask", "slot": k, "kind": rng.choice(["key_str", "val_int", "not_dict", "valid_then_bad_value", "valid_then_bad_key", "bad_then_valid"])}
 
 
 def _gen_construct(rng):
-    n = rng.randint(1, 10)
+    n = rng.randint(1, 10) if rng.random() < 0.85 else rng.randint(11, 14)
     f = sorted(rng.sample(FREQS, n), reverse=True)
     Z = [[round(rng.uniform(1, 100), 3), round(-rng.uniform(0, 100), 3)] for _ in f]
     order = rng.choice(["asc", "desc"])
@@ -108,11 +108,21 @@ def _gen_construct(rng):
     if r < 0.3:
         mask = None
     else:
-        mask = {str(i): True for i in range(n) if rng.random() < 0.35}
-        if rng.random() < 0.3 and n > 1:
-            mask[str(rng.randrange(n))] = False
-        if rng.random() < 0.15:
-            mask[str(n + rng.randint(0, 3))] = True
+        if rng.random() < 0.25:
+            # a complete mask (one entry per point), keys in ascending, descending or shuffled insertion order
+            keys = list(range(n))
+            how = rng.choice(["asc", "desc", "shuffled"])
+            if how == "desc":
+                keys.reverse()
+            elif how == "shuffled":
+                rng.shuffle(keys)
+            mask = {str(i): rng.random() < 0.4 for i in keys}
+        else:
+            mask = {str(i): True for i in range(n) if rng.random() < 0.35}
+            if rng.random() < 0.3 and n > 1:
+                mask[str(rng.randrange(n))] = False
+            if rng.random() < 0.15:
+                mask[str(n + rng.randint(0, 3))] = True
     return {"op": "construct", "f": f, "Z": Z, "mask": mask}
 
 
@@ -263,7 +273,7 @@ def apply(state, rec):
                     t[1] = t[1] - z * (i + 1)
         elif op == "json_restart":
             stats["restarts"]["json"] += 1
-            text = json.dumps(s["ds"].to_dict())
+            text = json.dumps(s["ds"].to_dict(), sort_keys=bool(rec.get("sort_keys")))
             try:
                 s["ds"] = DataSet.from_dict(json.loads(text))
             except Exception as e:
@@ -386,7 +396,12 @@ def apply(state, rec):
                 return _viol("refused-op-accepted", rec, f"DataSet(...) accepted an invalid construction ({kind})", kind=kind)
         elif op == "refused_set_mask":
             kind = rec["kind"]
-            bad = {"key_str": {"0": True}, "val_int": {0: 1}, "not_dict": [True]}[kind]
+            n_ = len(s["model"])
+            flip = [i for i in range(n_)][:3]
+            valid = {i: (not s["model"][i][2]) for i in flip}  # entries that would change flags if applied
+            bad = {"key_str": {"0": True}, "val_int": {0: 1}, "not_dict": [True],
+                   "valid_then_bad_value": {**valid, n_ - 1: 1}, "valid_then_bad_key": {**valid, "x": True},
+                   "bad_then_valid": {"x": True, **valid}}[kind]
             try:
                 s["ds"].set_mask(bad)
             except (TypeError, ValueError):
